@@ -3,6 +3,7 @@
 pub fn tok2char(t: &str) -> char {
     match t {
         "E" => '\u{e9}',
+        "Z" => '\u{c9}',
         "T" => '\u{3042}',
         "K" => '\u{e01}',
         "Q" => '\u{1F600}',
@@ -22,6 +23,7 @@ pub fn tok2char(t: &str) -> char {
 pub fn char2tok(c: char) -> String {
     match c {
         '\u{e9}' => "E".into(),
+        '\u{c9}' => "Z".into(),
         '\u{3042}' => "T".into(),
         '\u{e01}' => "K".into(),
         '\u{1F600}' => "Q".into(),
@@ -30,7 +32,7 @@ pub fn char2tok(c: char) -> String {
         ' ' => "S".into(),
         '\r' => "R".into(),
         '_' => "U".into(),
-        c if c.is_ascii_graphic() && !"ETKQNDSRU".contains(c) => c.to_string(),
+        c if c.is_ascii_graphic() && !"EZTKQNDSRU".contains(c) => c.to_string(),
         // anything else travels as a hex token; Text.tla treats unknown tokens as 1-byte non-word,
         // so callers must not use them where widths matter
         c => format!("u{:x}", c as u32),
